@@ -11,6 +11,8 @@ type checkFn func(*Ctx) (string, []string)
 var registry = map[string]checkFn{
 	"C04": checkC04,
 	"C07": checkC07,
+	"C08": checkC08,
+	"C09": checkC09,
 	"C22": checkC22,
 	"C25": checkC25,
 	"C28": checkC28,
